@@ -28,6 +28,15 @@ TRANSITIONS = {
 }
 
 
+def _have_pandas():
+    try:
+        import pandas  # noqa: F401
+
+        return True
+    except Exception:
+        return False
+
+
 def _check(scn, tz):
     """whole-second stamps: against the zone-free independent resampler.  Sub-second stamps (which the library drops at places of
     its own choosing): the same run under this zone and under UTC must give identical candles - the property itself."""
@@ -53,18 +62,20 @@ def _check(scn, tz):
 
 
 def _case(rng, idx, params):
-    scn, meta = om.gen_scn(rng, tf=True, fill=rng.random() < 0.4, life=rng.random() < 0.3, size=params.get("size", 50))
+    scn, meta = om.gen_scn(rng, tf=True, fill=rng.random() < 0.4, life=rng.random() < 0.3, ha=rng.random() < 0.25, size=params.get("size", 50))
     tz = params["tz"]
     # everything on the way from the caller's naive stamps to the held buckets must be zone-free: sub-second parts (dropped by
     # the library), dict / list encodings of appended chunks, and lifespan trimming
     if rng.random() < 0.4:
         scn["subsec"] = [rng.choice([0, 1, 250000, 999999]) for _ in range(7)]
-    scn["enc"] = rng.choice(["candle", "candle", "dict", "list", "dict_iso", "dict_iso"])
-    if scn["enc"] == "dict_iso" and scn.get("chunks") and scn.get("init", 0) > 1 and rng.random() < 0.5:
+    scn["enc"] = rng.choice(["candle", "candle", "dict", "list", "dict_iso", "dict_iso", "pandas"])
+    if scn["enc"] == "pandas" and not _have_pandas():
+        scn["enc"] = "candle"
+    if scn["enc"] in ("dict_iso", "pandas") and scn.get("chunks") and scn.get("init", 0) > 1 and rng.random() < 0.5:
         # let most of the stream arrive through append, where the encoding applies
         rest = len(scn["stream"]) - 1
         scn["init"], scn["chunks"] = 1, ([1] * rest if rng.random() < 0.5 else [rest])
-    meta.update({"subsec": bool(scn.get("subsec")), "enc": scn["enc"], "life": scn.get("life") is not None})
+    meta.update({"subsec": bool(scn.get("subsec")), "enc": scn["enc"], "life": scn.get("life") is not None, "ha": bool(scn.get("ha"))})
     if tz in TRANSITIONS and rng.random() < 0.6 and scn["stream"]:
         span = scn["stream"][-1][0] - scn["stream"][0][0]
         base = rng.choice(TRANSITIONS[tz]) + 7200 - rng.randint(0, max(span, 7200))
